@@ -2054,6 +2054,24 @@ def noise_objects():
                 warnings.simplefilter("ignore")
                 return hn(torch.zeros(3, 1)).diagonal(dim1=-1, dim2=-2)
         out.append(("HeteroskedasticNoise", dm.raw, get, hn._noise_constraint, "heteroskedastic"))
+        # multi-output noise model + `noise_indices` (only some outputs parameterise the noise): the selected outputs go
+        # through the noise constraint like the single-output case — every index subset of a 3-output model
+        class DummyMT(gpytorch.Module):
+            def __init__(self):
+                super().__init__()
+                self.raw = torch.nn.Parameter(torch.zeros(3, 3))
+
+            def forward(self, x):
+                return gpytorch.distributions.MultitaskMultivariateNormal(self.raw, torch.eye(9))
+        for idx in ([0], [1], [2], [0, 2], [1, 2], [0, 1, 2], [2, 0]):
+            dmt = DummyMT()
+            hni = HeteroskedasticNoise(dmt, noise_indices=idx)
+
+            def get_i(hni=hni):
+                with warnings.catch_warnings():
+                    warnings.simplefilter("ignore")
+                    return hni(torch.zeros(3, 1)).diagonal(dim1=-1, dim2=-2)
+            out.append((f"HeteroskedasticNoise(noise_indices={idx})", dmt.raw, get_i, hni._noise_constraint, "heteroskedastic"))
     except Exception as e:  # pragma: no cover
         _state["hetero_error"] = f"{type(e).__name__}: {e}"
     return out
